@@ -49,6 +49,15 @@ func everyIterationPasses(fn *ssa.Function, h *ssa.BasicBlock, isB func(ssa.Inst
 		if core.ReachAvoiding(fn, s, map[*ssa.BasicBlock]bool{h: true}, nil) == nil {
 			continue // loop exit
 		}
+		inLoop := s == h
+		for _, x := range enclosingLoops(s) {
+			if x == h {
+				inLoop = true
+			}
+		}
+		if !inLoop {
+			continue // exit of h's loop into an enclosing loop
+		}
 		any = true
 		if core.ReachInstrFrom(core.Point{Block: s, Idx: 0}, h.Instrs[0], nil, isB) != nil {
 			return false
